@@ -29,6 +29,10 @@ pub struct PSeries {
     pub labels: Vec<(u8, u8)>,
     /// (timestamp ms selector, value selector)
     pub samples: Vec<(u8, u8)>,
+    /// position of the `__name__` label among the series' labels (protobuf order is the
+    /// sender's; a sender that sorts puts labels such as `Env` before `__name__`)
+    #[serde(default)]
+    pub name_pos: u8,
 }
 
 #[derive(Clone, Debug, Serialize, Deserialize)]
@@ -95,11 +99,14 @@ pub fn encode_remote_write(req: &PReq) -> Vec<u8> {
     for s in &req.series {
         let mut ts = Vec::new();
         let mut labels = Vec::new();
-        let mut l = Vec::new();
-        len_delim(1, b"__name__", nm, &mut l);
-        len_delim(2, PNAMES[s.name as usize % PNAMES.len()].as_bytes(), nm, &mut l);
-        len_delim(1, &l, nm, &mut labels);
-        for (n, v) in &s.labels {
+        let mut name_label = Vec::new();
+        len_delim(1, b"__name__", nm, &mut name_label);
+        len_delim(2, PNAMES[s.name as usize % PNAMES.len()].as_bytes(), nm, &mut name_label);
+        let name_at = s.name_pos as usize % (s.labels.len() + 1);
+        for (k, (n, v)) in s.labels.iter().enumerate() {
+            if k == name_at {
+                len_delim(1, &name_label, nm, &mut labels);
+            }
             let mut l = Vec::new();
             len_delim(1, label_name(req, *n).as_bytes(), nm, &mut l);
             if req.enc % 4 == 2 {
@@ -109,6 +116,9 @@ pub fn encode_remote_write(req: &PReq) -> Vec<u8> {
             }
             len_delim(2, LVALS[*v as usize % LVALS.len()].as_bytes(), nm, &mut l);
             len_delim(1, &l, nm, &mut labels);
+        }
+        if name_at == s.labels.len() {
+            len_delim(1, &name_label, nm, &mut labels);
         }
         let mut samples = Vec::new();
         for (t, v) in &s.samples {
@@ -624,36 +634,101 @@ pub struct FlightCase {
     /// which frame and which part (header / body) is mutated
     pub frame: u8,
     pub part: u8,
+    /// 0 = an ordinary metrics batch; 1 = a batch without columns; 2 = a single Null-typed
+    /// column; 3 = a timestamp column plus a Null-typed column
+    #[serde(default)]
+    pub shape: u8,
+    /// row count written into the record-batch header in place of the true one
+    #[serde(default)]
+    pub declared_rows: Option<u8>,
 }
 
-pub fn exec_flight(c: &FlightCase) -> Outcome {
-    let rt = rt_plain();
-    rt.block_on(async {
-        let mut out = Outcome::pass();
-        let r = receiver().await;
-        let spec = crate::gen::BatchSpec { schema: 1, rows: (0..1 + c.rows % 4).map(|i| crate::gen::RowSpec { ts_step: i as u16, ts_jitter: 0, metric: i, labels: [Some(0), None, Some(1)], fval: Some(3), ival: None }).collect() };
-        let batch = crate::gen::build_batch(&spec, 1_700_000_000_000_000_000, 0, None);
-        let mut frames = cardinalsin::api::ingest::flight_ingest::batch_to_flight_data(&batch).expect("encode");
-        if !frames.is_empty() {
-            let fi = c.frame as usize % frames.len();
-            let f = &mut frames[fi];
-            if c.part % 2 == 0 {
-                f.data_header = Bytes::from(apply_muts(f.data_header.to_vec(), &c.muts));
-            } else {
-                f.data_body = Bytes::from(apply_muts(f.data_body.to_vec(), &c.muts));
-            }
+/// Row counts a hostile client may declare (columns without data buffers make any count "valid")
+pub const DECLARED: [i64; 8] = [0, 1 << 20, 1 << 31, 1 << 40, 17_613_660_880_896, i64::MAX, -1, 500_001];
+const MARK_ROWS: usize = 0x1357;
+
+fn flight_frames(c: &FlightCase) -> Vec<arrow_flight::FlightData> {
+    use arrow_array::{Int64Array, NullArray};
+    use arrow_schema::{DataType, Field, Schema};
+    let batch = match c.shape % 4 {
+        0 => {
+            let spec = crate::gen::BatchSpec { schema: 1, rows: (0..1 + c.rows % 4).map(|i| crate::gen::RowSpec { ts_step: i as u16, ts_jitter: 0, metric: i, labels: [Some(0), None, Some(1)], fval: Some(3), ival: None }).collect() };
+            crate::gen::build_batch(&spec, 1_700_000_000_000_000_000, 0, None)
         }
-        let svc = cardinalsin::api::ingest::flight_ingest::FlightIngestService::new(r.ingester.clone());
-        use futures::FutureExt;
-        let fut = std::panic::AssertUnwindSafe(svc.process_stream(frames.into_iter())).catch_unwind();
-        out.nontrivial = !c.muts.iter().all(|m| matches!(m, Mut::None));
-        match PollBudget::new(fut, 5000).await {
-            None => out.set_fail("flight:receiver-hang", "process_stream did not answer within 5000 polls"),
-            Some(Err(_)) => {
-                let p = take_last_panic().unwrap_or_default();
-                out.set_fail(format!("flight:receiver-panic:{}", panic_site(&p)), p.chars().take(200).collect::<String>());
+        1 => RecordBatch::try_new_with_options(Arc::new(Schema::empty()), vec![], &arrow_array::RecordBatchOptions::new().with_row_count(Some(MARK_ROWS))).expect("batch"),
+        2 => RecordBatch::try_new(Arc::new(Schema::new(vec![Field::new("n", DataType::Null, true)])), vec![Arc::new(NullArray::new(MARK_ROWS))]).expect("batch"),
+        _ => RecordBatch::try_new(
+            Arc::new(Schema::new(vec![Field::new("timestamp", DataType::Int64, false), Field::new("n", DataType::Null, true)])),
+            vec![Arc::new(Int64Array::from((0..MARK_ROWS as i64).map(|k| 1_700_000_000_000_000_000 + k).collect::<Vec<_>>())), Arc::new(NullArray::new(MARK_ROWS))],
+        )
+        .expect("batch"),
+    };
+    let mut frames = cardinalsin::api::ingest::flight_ingest::batch_to_flight_data(&batch).expect("encode");
+    if let (Some(d), true) = (c.declared_rows, c.shape % 4 != 0) {
+        let want = DECLARED[d as usize % DECLARED.len()].to_le_bytes();
+        let mark = (MARK_ROWS as i64).to_le_bytes();
+        for f in frames.iter_mut().skip(1) {
+            let mut h = f.data_header.to_vec();
+            let mut k = 0;
+            while k + 8 <= h.len() {
+                if h[k..k + 8] == mark {
+                    h[k..k + 8].copy_from_slice(&want);
+                    k += 8;
+                } else {
+                    k += 1;
+                }
             }
-            Some(Ok(r)) => out.class(if r.is_ok() { "accepted" } else { "rejected" }),
+            f.data_header = Bytes::from(h);
+        }
+    }
+    if !frames.is_empty() {
+        let fi = c.frame as usize % frames.len();
+        let f = &mut frames[fi];
+        if c.part % 2 == 0 {
+            f.data_header = Bytes::from(apply_muts(f.data_header.to_vec(), &c.muts));
+        } else {
+            f.data_body = Bytes::from(apply_muts(f.data_body.to_vec(), &c.muts));
+        }
+    }
+    frames
+}
+
+/// The frames go to `FlightIngestService::process_stream` on a thread with the stack of a tokio
+/// worker, inside a forked child: a stack overflow or abort is a failure of the case.
+pub fn exec_flight(c: &FlightCase) -> Outcome {
+    let c = c.clone();
+    isolated("flight", move || {
+        let frames = flight_frames(&c);
+        let mutated = !c.muts.iter().all(|m| matches!(m, Mut::None));
+        let hostile_rows = c.shape % 4 != 0 && c.declared_rows.is_some();
+        let shape = c.shape % 4;
+        let res = on_worker_stack(move || {
+            let rt = rt_plain();
+            rt.block_on(async {
+                let mut out = Outcome::pass();
+                let r = receiver().await;
+                let svc = cardinalsin::api::ingest::flight_ingest::FlightIngestService::new(r.ingester.clone());
+                use futures::FutureExt;
+                let fut = std::panic::AssertUnwindSafe(svc.process_stream(frames.into_iter())).catch_unwind();
+                match PollBudget::new(fut, 5000).await {
+                    None => out.set_fail("flight:receiver-hang", "process_stream did not answer within 5000 polls"),
+                    Some(Err(_)) => {
+                        let p = take_last_panic().unwrap_or_default();
+                        out.set_fail(format!("flight:receiver-panic:{}", panic_site(&p)), p.chars().take(200).collect::<String>());
+                    }
+                    Some(Ok(r)) => out.class(if r.is_ok() { "accepted" } else { "rejected" }),
+                }
+                out
+            })
+        });
+        let mut out = match res {
+            Ok(o) => o,
+            Err(_) => Outcome::fail("flight:receiver-panic:outside-catch", take_last_panic().unwrap_or_default()),
+        };
+        out.nontrivial = mutated || hostile_rows;
+        out.class(["shape:metrics-batch", "shape:no-columns", "shape:null-column-only", "shape:timestamp+null-column"][shape as usize]);
+        if hostile_rows {
+            out.class("declared-row-count-rewritten");
         }
         out
     })
@@ -664,7 +739,7 @@ pub fn exec_flight(c: &FlightCase) -> Outcome {
 // ---------------------------------------------------------------------------
 
 pub fn preq(colliding: bool) -> impl Strategy<Value = PReq> {
-    (prop::collection::vec((0u8..4, prop::collection::vec((0u8..9, 0u8..6), 0..4), prop::collection::vec((0u8..7, 0u8..16), 0..5)).prop_map(|(name, labels, samples)| PSeries { name, labels, samples }), 1..6), 0u8..4, 0u8..6).prop_map(move |(series, enc, ts_base)| PReq { series, enc, colliding_labels: colliding, ts_base })
+    (prop::collection::vec((0u8..4, prop::collection::vec((0u8..9, 0u8..6), 0..4), prop::collection::vec((0u8..7, 0u8..16), 0..5), prop_oneof![2 => Just(0u8), 1 => any::<u8>()]).prop_map(|(name, labels, samples, name_pos)| PSeries { name, labels, samples, name_pos }), 1..6), 0u8..4, 0u8..6).prop_map(move |(series, enc, ts_base)| PReq { series, enc, colliding_labels: colliding, ts_base })
 }
 
 fn mutation() -> impl Strategy<Value = Mut> {
@@ -675,7 +750,7 @@ pub fn def() -> PropDef {
     PropDef {
         id: "C17",
         level: "exploration",
-        rule: "prom-fidelity: generated remote-write requests (1-5 series, 4 metric names, 0-3 labels from overlapping / disjoint sets incl. empty and non-ASCII values, 0-4 samples, values from {0, +-1, 0.5, -2.25, 1e300, 2^53, 2^53+1, -2^53, +-2^63, 2^64, NaN, +-inf, 42}, ms timestamps of either sign up to +-9e12, one request spanning <= 2 days) -> own protobuf encoder (canonical, samples before labels, unknown fields, non-minimal varints) -> snappy -> the public handle_remote_write with flush_row_count=1 -> decoded chunks; every sample must be exactly one row with ts*10^6, name, complete label set, exactly one typed value column set and numerically equal as a real (NaN = NaN); labels colliding with built-in column names as a separate sub-check. otlp: generated ExportMetricsServiceRequest (gauge / sum with int and double points, histogram, summary, resource + point attributes incl. shadowing) through OtlpGrpcService::export. prom-bytes / flight: mutated valid encodings (truncate, bit flip, splice, length varints rewritten to 0, 2^32, 2^63, 2^64-1, ...) and raw bytes through the public handlers under catch_unwind and a poll budget. Non-trivial: fidelity = >=2 series with different label sets and both an integral and a fractional value; bytes = the body got past snappy.",
+        rule: "prom-fidelity: generated remote-write requests (1-5 series, 4 metric names, 0-3 labels from overlapping / disjoint sets incl. empty and non-ASCII values, the __name__ label at any position among them, 0-4 samples, values from {0, +-1, 0.5, -2.25, 1e300, 2^53, 2^53+1, -2^53, +-2^63, 2^64, NaN, +-inf, 42}, ms timestamps of either sign up to +-9e12, one request spanning <= 2 days) -> own protobuf encoder (canonical, samples before labels, unknown fields, non-minimal varints) -> snappy -> the public handle_remote_write with flush_row_count=1 -> decoded chunks; every sample must be exactly one row with ts*10^6, name, complete label set, exactly one typed value column set and numerically equal as a real (NaN = NaN); labels colliding with built-in column names as a separate sub-check. otlp: generated ExportMetricsServiceRequest (gauge / sum with int and double points, histogram, summary, resource + point attributes incl. shadowing) through OtlpGrpcService::export. prom-bytes / flight: mutated valid encodings (truncate, bit flip, splice, length varints rewritten to 0, 2^32, 2^63, 2^64-1, ...) and raw bytes through the public handlers under catch_unwind and a poll budget. Non-trivial: fidelity = >=2 series with different label sets and both an integral and a fractional value; bytes = the body got past snappy.",
         assumptions: &["labels with an empty value may be stored as absent or as empty", "label names unique per series, every series has __name__", "overflow checks off (release semantics): arithmetic overflow is not a panic"],
         subs: || {
             vec![
@@ -693,7 +768,7 @@ pub fn def() -> PropDef {
                     strategy: |_| (prop::collection::vec((prop::collection::vec((0u8..3, 0u8..6), 0..3), prop::collection::vec((0u8..6, 0u8..4, 0u8..5, 0u8..16, prop::collection::vec((0u8..10, 0u8..6), 0..3)).prop_map(|(kind, name, ts, value, attrs)| OPoint { kind, name, ts, value, attrs }), 0..4)), 1..3), 0u8..4).prop_map(|(resources, ts_base)| OReq { resources, ts_base }).boxed(),
                     exec: exec_otlp,
                 }),
-                Box::new(Sub::<FlightCase> { name: "flight", cases: |t| t.scale(5_000, 10), strategy: |_| (0u8..4, prop::collection::vec(mutation(), 1..4), any::<u8>(), any::<u8>()).prop_map(|(rows, muts, frame, part)| FlightCase { rows, muts, frame, part }).boxed(), exec: exec_flight }),
+                Box::new(Sub::<FlightCase> { name: "flight", cases: |t| t.scale(5_000, 10), strategy: |_| (0u8..4, prop::collection::vec(mutation(), 1..4), any::<u8>(), any::<u8>(), prop_oneof![3 => Just(0u8), 2 => 1u8..4], prop::option::weighted(0.7, 0u8..8)).prop_map(|(rows, muts, frame, part, shape, declared_rows)| FlightCase { rows, muts: if shape != 0 && declared_rows.is_some() && frame % 2 == 0 { vec![Mut::None] } else { muts }, frame, part, shape, declared_rows }).boxed(), exec: exec_flight }),
             ]
         },
     }
